@@ -101,6 +101,11 @@ impl Vm {
     self.gc.replace(gc);
   }
 
+  /// verification hook: (address, accounted size) of every block the allocator owns
+  pub fn verif_alloc_blocks(&self) -> Vec<(usize, usize)> {
+    self.gc.borrow().verif_blocks()
+  }
+
   /// verification hook: sorted intern table contents
   pub fn verif_intern_keys(&self) -> Vec<String> {
     self.gc.borrow().verif_intern_keys()
